@@ -286,6 +286,7 @@ pub fn run_race(args: &Args, rep: &mut Report) {
     use std::alloc::Layout;
     let nthreads = args.get_usize("threads", 4);
     let rounds = args.iters.max(1);
+    let only = args.get_usize("only", usize::MAX);
     let barrier = Arc::new(Barrier::new(nthreads));
     let mut hs = Vec::new();
     for t in 0..nthreads {
@@ -300,7 +301,7 @@ pub fn run_race(args: &Args, rep: &mut Report) {
                     ($M:expr) => {{
                         let mut b = Bump::<$M>::with_min_align();
                         for _ in 0..6 {
-                            match rng.below(9) {
+                            match if only != usize::MAX { only } else { rng.below(13) } {
                                 0 => sum += b.alloc(()) as *mut () as usize & 1,
                                 1 => sum += b.alloc_layout(Layout::from_size_align(0, 1).unwrap()).as_ptr() as usize & 1,
                                 2 => sum += b.alloc_layout(Layout::from_size_align(0, 16).unwrap()).as_ptr() as usize & 1,
@@ -309,16 +310,80 @@ pub fn run_race(args: &Args, rep: &mut Report) {
                                 5 => sum += b.chunk_capacity() + b.allocated_bytes() + b.allocated_bytes_including_metadata(),
                                 6 => b.reset(),
                                 7 => sum += *b.alloc(5u32) as usize,
-                                _ => sum += b.iter_allocated_chunks().count(),
+                                8 => sum += b.iter_allocated_chunks().count(),
+                                9 => {
+                                    // fallible initialisers whose whole Result slot is zero-sized
+                                    let z: Result<&mut std::convert::Infallible, ()> = b.alloc_try_with(|| Err(()));
+                                    sum += z.is_err() as usize;
+                                    let z2 = b.try_alloc_try_with(|| Err::<std::convert::Infallible, ()>(()));
+                                    sum += z2.is_err() as usize;
+                                    let r3: Result<&mut [()], ()> = b.alloc_slice_try_fill_with(3, |i| if i == 1 { Err(()) } else { Ok(()) });
+                                    sum += r3.is_err() as usize;
+                                    let r4: Result<&mut [u64], ()> = b.alloc_slice_try_fill_with(0, |_| Err(()));
+                                    sum += r4.is_ok() as usize;
+                                }
+                                12 => {
+                                    // the same with sized results (these obtain memory)
+                                    let r: Result<&mut (), ()> = b.alloc_try_with(|| Err(()));
+                                    sum += r.is_err() as usize;
+                                    let r2 = b.try_alloc_try_with(|| Ok::<(), ()>(()));
+                                    sum += r2.is_ok() as usize;
+                                }
+                                10 => {
+                                    // Allocator trait with zero-sized layouts
+                                    use allocator_api2::alloc::Allocator;
+                                    let a = &b;
+                                    let l0 = Layout::from_size_align(0, 8).unwrap();
+                                    if let Ok(p) = a.allocate(l0) {
+                                        let p = p.cast::<u8>();
+                                        unsafe {
+                                            let p2 = a.grow(p, l0, l0).map(|x| x.cast::<u8>()).unwrap_or(p);
+                                            let p3 = a.shrink(p2, l0, Layout::from_size_align(0, 1).unwrap()).map(|x| x.cast::<u8>()).unwrap_or(p2);
+                                            a.deallocate(p3, Layout::from_size_align(0, 1).unwrap());
+                                            sum += p3.as_ptr() as usize & 1;
+                                        }
+                                    }
+                                    let v: allocator_api2::vec::Vec<(), _> = allocator_api2::vec::Vec::new_in(a);
+                                    sum += v.len();
+                                }
+                                _ => {
+                                    b.set_allocation_limit(Some(rng.below(3)));
+                                    sum += b.try_alloc_layout(Layout::from_size_align(0, 4).unwrap()).is_ok() as usize;
+                                    sum += b.allocation_limit().unwrap_or(0);
+                                    b.set_allocation_limit(None);
+                                }
                             }
                         }
                         drop(b);
                     }};
                 }
-                match rng.below(3) {
+                match rng.below(4) {
                     0 => go!(1),
                     1 => go!(8),
-                    _ => go!(16),
+                    2 => go!(16),
+                    _ => {
+                        // collections that never needed memory, on an arena that holds none
+                        let b = Bump::new();
+                        let mut v: bumpalo::collections::Vec<()> = bumpalo::collections::Vec::new_in(&b);
+                        v.push(());
+                        v.extend_from_slice_copy(&[(), ()]);
+                        v.shrink_to_fit();
+                        sum += v.len();
+                        let mut e: bumpalo::collections::Vec<u64> = bumpalo::collections::Vec::new_in(&b);
+                        e.shrink_to_fit();
+                        e.reserve(0);
+                        sum += e.capacity();
+                        let mut s = bumpalo::collections::String::new_in(&b);
+                        s.push_str("");
+                        s.shrink_to_fit();
+                        sum += s.len();
+                        let bx = bumpalo::boxed::Box::new_in((), &b);
+                        drop(bx);
+                        let sl: bumpalo::boxed::Box<[u32]> = bumpalo::boxed::Box::from_iter_in(std::iter::empty(), &b);
+                        sum += sl.len();
+                        drop(v);
+                        drop(e);
+                    }
                 }
             }
             sum
